@@ -42,7 +42,7 @@ def main():
         root = os.path.dirname(os.path.abspath(xgi.__file__))
         if tb and os.path.abspath(tb[-1].filename).startswith(root):
             import json
-            from harness.core import EVID, OUT
+            from harness.core import OUT
             d = os.path.join(OUT, "replays", prop)
             os.makedirs(d, exist_ok=True)
             path = os.path.join(d, "uncaught-library-exception.json")
@@ -51,13 +51,17 @@ def main():
                        "traceback": traceback.format_exc()[-4000:],
                        "how": f"VERIF_SEED={seed} ./check {prop} --tier {a.tier}   (the library raised inside a call the harness makes on every run)"},
                       open(path, "w"), indent=1)
-            os.makedirs(EVID, exist_ok=True)
-            json.dump({"property_id": prop, "tier": a.tier, "seed": seed, "level": "proof", "wall_s": 0.0, "violations": 1,
-                       "coverage": {"evaluations": 1, "distinct_nontrivial": 2, "obligations": 1, "discharged": 1,
-                                    "checker_cmd": "n/a (run aborted by an uncaught library exception)", "trusted_base": [],
-                                    "samples": [traceback.format_exc()[-800:]],
-                                    "explanation": "run aborted: the implementation raised an unexpected exception under the harness"}},
-                      open(os.path.join(EVID, prop + ".json"), "w"), indent=1)
+            from harness.core import write_evidence, repo_provenance
+            audit = ctx.audit or {"theorems": [], "discharged": []}
+            write_evidence(prop, {"property_id": prop, "tier": a.tier, "seed": seed, "level": "proof",
+                                  "wall_s": round(__import__("time").time() - ctx.t0, 2), "violations": 1,
+                                  "coverage": {"obligations": len(audit["theorems"]), "discharged": len(audit["discharged"]),
+                                               "checker_cmd": f"cd lean && lake build XgiModel.Props.{prop}", "trusted_base": [],
+                                               "evaluations": ctx.evaluations, "distinct_nontrivial": len(ctx.nontrivial),
+                                               "traces_validated_against_impl": ctx.traces, "samples": ctx.samples or [traceback.format_exc()[-800:]],
+                                               "aborted": True, "repo": repo_provenance(),
+                                               "explanation": "run ABORTED: the implementation raised an exception the harness does not "
+                                                              "anticipate on the unchanged tree; the counts are those measured up to the abort"}})
             print(f"VIOLATION property={prop} replay={path}")
             print(f"  site={tb[-1].name} class=uncaught-{type(e).__name__} detail={str(e)[:200]}")
             return 1
